@@ -14,7 +14,7 @@ ID = "C17"
 LEVEL = "model_checking"
 MIN_OUTCOMES = 3
 MANIFEST = {
-    'text': 'All BUILD ids of 1..5 digits (quick) / 1..7 digits (thorough) including zero-padded ones take one real bump each (edge invariant over every state of a digit class is inductive for chains inside the class); every 37th id also under five flag sets (--pin-increments/--pin-date/--tag/date changes); complete chains of 2,000 / 10,000 bumps from 40 starts confirm the digit-length crossings; `update` chains behind a stale VCS tag (one project with `.git` as a file, number-like versions in TOML and unquoted setup.cfg, chains through ids ending in 00) one step from behind a NEWER tag, a project that reaches its config through `*.toml`, and a README with the two bare patterns `init` writes; BUILD alone, BLD, and BUILD inside vYYYY0M.BUILD[-TAG] are driven through the real command bodies.',
+    'text': "All BUILD ids of 1..5 digits (quick) / 1..7 digits (thorough) including zero-padded ones take one real bump each (edge invariant over every state of a digit class is inductive for chains inside the class); every 37th id also under five flag sets (--pin-increments/--pin-date/--tag/date changes); complete chains of 2,000 / 10,000 bumps from 40 starts confirm the digit-length crossings; `update` chains behind a stale VCS tag (one project with `.git` as a file, number-like versions in TOML and unquoted setup.cfg, chains through ids ending in 00) one step from behind a NEWER tag, a project that reaches its config through `*.toml`, a README with the two bare patterns `init` writes, and configs (pyproject.toml, setup.cfg) whose bumpver section comes after other tools' look-alike sections with a current_version of their own; BUILD alone, BLD, and BUILD inside vYYYY0M.BUILD[-TAG] are driven through the real command bodies.",
     'note': 'ids longer than 7 digits are not enumerated; all-9 ids are the documented maximum and only required to be refused',
     'technique': 'explicit-state exploration of the deterministic BUILD successor system on the real code, all states of a digit class + full chains',
 }
@@ -200,7 +200,8 @@ def update_chain(st, start, n):
     # (YYYY.BUILD: a version that reads like a decimal number; once in bumpver.toml, once unquoted in setup.cfg)
     # (toml-glob: the config file is named in file_patterns only through `*.toml`, for another line; current_version relies on the implicit entry)
     for pattern, prefix, fmt in (("vYYYY.BUILD", "v2020.", "toml"), ("YYYY.BLD", "2020.", "toml"), ("YYYY.BUILD", "2020.", "toml"), ("YYYY.BUILD", "2020.", "ini"),
-                                 ("vYYYY.BUILD", "v2020.", "toml-glob"), ("vYYYY.BUILD", "v2020.", "toml-readme")):
+                                 ("vYYYY.BUILD", "v2020.", "toml-glob"), ("vYYYY.BUILD", "v2020.", "toml-readme"),
+                                 ("YYYY.BUILD", "2020.", "pyproject-neighbours"), ("vYYYY.BUILD", "v2020.", "ini-neighbours")):
         if pattern == "YYYY.BLD" and (start.startswith("0") and len(start) > 1):
             continue
         cur = prefix + start
@@ -217,6 +218,18 @@ def update_chain(st, start, n):
                    '"*.toml" = [\'^release = "{version}"\']\n"a.txt" = ["ver={version};"]\n')
             world.write_tree({"bumpver.toml": cfg.encode(), "a.txt": f"ver={cur};\n".encode()})
             pattern = pattern + " (config by glob)"
+        elif fmt == "pyproject-neighbours":
+            # other tools' tables with look-alike names and a current_version of their own come BEFORE bumpver's; the config file is not
+            # listed in file_patterns (the implicit entry finds the line to rewrite)
+            cfg = ('[tool.bumpversion]\ncurrent_version = "0.9.1"\ncommit = true\n\n[tool.bumpver-extras]\ncurrent_version = "0.9.2"\n\n'
+                   f'[tool.bumpver]\ncurrent_version = "{cur}"\nversion_pattern = "{pattern}"\ncommit = false\n\n[tool.bumpver.file_patterns]\n"a.txt" = ["ver={{version}};"]\n')
+            world.write_tree({"pyproject.toml": cfg.encode(), "a.txt": f"ver={cur};\n".encode()})
+            pattern = pattern + " (pyproject.toml after look-alike tables)"
+        elif fmt == "ini-neighbours":
+            cfg = ('[bumpversion]\ncurrent_version = 0.9.1\ncommit = True\n\n[bumpversion:file:setup.py]\n\n'
+                   f'[bumpver]\ncurrent_version = {cur}\nversion_pattern = {pattern}\ncommit = False\n\n[bumpver:file_patterns]\na.txt =\n    ver={{version}};\n')
+            world.write_tree({"setup.cfg": cfg.encode(), "a.txt": f"ver={cur};\n".encode()})
+            pattern = pattern + " (setup.cfg after a look-alike section)"
         elif fmt == "toml":
             cfg = f'[bumpver]\ncurrent_version = "{cur}"\nversion_pattern = "{pattern}"\ncommit = false\n\n[bumpver.file_patterns]\n"a.txt" = ["ver={{version}};"]\n'
             world.write_tree({"bumpver.toml": cfg.encode(), "a.txt": f"ver={cur};\n".encode()})
